@@ -4,10 +4,11 @@ import random
 from .. import gen
 from .. import harness as H
 from ..ref import http as refhttp
+from ..ref import ws as refws
 
 LEVEL = 'exploration'
 TECHNIQUE = 'runtime monitoring: ground-truth message lists through an independent RFC 6455 encoder, event-list oracle + payload alias monitor on the simulated socket'
-BUDGET_S = {'quick': 30, 'thorough': 240}
+BUDGET_S = {'quick': 45, 'thorough': 240}
 REQUIRED = {'all': ['oracle.compressed_connection_runs', 'oracle.messages_compared', 'oracle.alias_checks', 'exhaustive4.cases']}
 RULE = ('abstract message lists (ground truth) -> RFC 6455 reference encoder -> simulated socket -> real '
         'lomond event loop; oracle compares the yielded message events with the ground-truth list and '
@@ -89,6 +90,13 @@ def cases(tier, seed, i, n):
         count = 2500 if tier == 'quick' else 60000
         for idx in range(count):
             yield random_case(rnd, idx, tier)
+            if idx % 10 == 7:
+                # the application has already called close(): everything the server still sends before its own
+                # Close (C08: "incoming messages continue to be delivered") arrives like any other message
+                c = random_case(rnd, idx, tier)
+                c['close'] = None
+                c['app_closed'] = True
+                yield c
             if idx % 25 == 4:
                 # the same kind of sequence on a connection with permessage-deflate negotiated: a conforming
                 # server compresses (window = its own server_max_window_bits, here 15) whatever the client's
@@ -134,6 +142,11 @@ def run_case(case, acc):
         steps += [('await_close',), ('eof',)]
     else:
         steps += [('eof',)]
+    policy = None
+    if case.get('app_closed'):
+        steps = [('await_close',), ('raw', stream + refws.enc_frame(8, refws.close_payload(1000, 'reply'))), ('eof',)]
+        policy = H.TablePolicy({'poll#0': [['close', 1001, 'application closes first']]})
+        acc.count2('oracle', 'runs_after_application_close')
     seg = case['seg']
     if seg == 'coalesced':
         cuts = None
@@ -156,9 +169,13 @@ def run_case(case, acc):
             cuts = [c - hl0 + hl for c in cuts]
         acc.count2('oracle', 'compressed_connection_runs')
     w = H.World(H.hs_server(steps, hs), cuts=cuts)
-    run = H.drive(w, ws_kwargs=dict(compress=True) if hs is not None else None, connect_kwargs=dict(ping_rate=0))
+    run = H.drive(w, ws_kwargs=dict(compress=True) if hs is not None else None, connect_kwargs=dict(ping_rate=0), policy=policy)
     acc.count2('runs', 'end=' + str(run.end))
     got = run.messages()
+    if case.get('app_closed'):
+        # the server's reply to the application's Close ends the exchange; it is not one of the messages compared
+        if got and got[-1][0] == 'closed':
+            got = got[:-1]
     perr = [e for e in run.events if e.name == 'protocol_error']
     detail = None
     key = None
